@@ -22,6 +22,7 @@ package determinant
 //import   "math"
 
 import . "github.com/pbenner/autodiff"
+import   "github.com/pbenner/autodiff/verifhook"
 import   "github.com/pbenner/autodiff/algorithm/cholesky"
 
 /* -------------------------------------------------------------------------- */
@@ -41,6 +42,7 @@ type InSitu struct {
 /* -------------------------------------------------------------------------- */
 
 func determinantNaive(a ConstMatrix) Scalar {
+  verifhook.Tick("determinant.minor")
   n, _ := a.Dims()
   t1   := NullScalar(a.ElementType())
   t2   := NullScalar(a.ElementType())
